@@ -9,4 +9,25 @@ PROPS = {
         ],
         "explanation": "Theorems over every size n=2^k (any k), both layouts, all flags and transport answers about the executable layout model; the model is compared event-for-event with VirtQueue::new + drop on the exhaustive configuration grid, and an independent oracle checks alignment, containment, disjointness, direction and zero-fill on the real memory.",
     },
+    "C08": {
+        "modules": ["VirtioVerif.Props.C08"],
+        "assumptions": [
+            "constructor skeletons (statement order, flag arguments, `?`), struct field orders and Drop bodies of the eleven drivers are regenerated from the source text by tools/extract.py on every run; SUPPORTED_FEATURES and queue (index, size) pairs by `vh features` (all 64 bits offered on the model transport, value written to the driver-features register)",
+            "the device is passive during construction (writes neither used.flags nor avail_event), so a posting constructor's `should_notify()` is true",
+            "max_queue_size answer of the transport >= the driver's queue size in the theorems (refusals are compared dynamically under C09)",
+            "transport/x86_64 (hypercalls) cannot run in user space: excluded",
+        ],
+        "explanation": "Theorems: begin_init/finish_init shape; for each of the 11 drivers, every offered word and both layouts the composed constructor runs the status automaton 0,3,read,write,11,queues..,15 with notifications only after 15 and writes offered&supported once; VERSION_1 accepted when offered; decide-theorems over the regenerated skeletons (no notify before finish_init, queues between begin_init and finish_init, queue flags = negotiated bits 28/29/33); gated operations silent without their feature; net header 12 bytes iff VERSION_1. Correspondence: ordered transport/HAL event list of every driver x feature word x layout on the model transport (and the register trace of the real MmioTransport folded back to calls) against the model; oracles written from virtio 1.x 3.1.1.",
+        "timeout": {"quick": 900, "thorough": 3600},
+    },
+    "C09": {
+        "modules": ["VirtioVerif.Props.C09"],
+        "assumptions": [
+            "constructor skeletons, struct field orders and Drop bodies are regenerated from the source text by tools/extract.py on every run; Rust's drop order (Drop::drop body, then fields in declaration order; early return: live locals in reverse declaration order, parameters last) is interpreted by Model/DropPlan.lean and confirmed dynamically",
+            "transports reset the device when dropped (MmioTransport, PciTransport: see their Drop impls; the model transport emulates it); drivers without a Drop calling queue_unset (sound, 9p, buffered net wrapper) rely on that",
+            "VirtQueue::add on a fresh queue of SIZE single-descriptor chains cannot fail (C01/C03), so OwningQueue::new and the posting loops fail only as modelled",
+        ],
+        "explanation": "Theorems (decide over the regenerated tables, every driver x layout x flag combination x k): failing the k-th DMA allocation yields DmaError, the ledger of the emitted events is balanced (each region released exactly once with its page count, nothing else released), and no queue region / posted buffer is released while the device is live on that queue; same for config-space failures, queue refusals and for dropping the constructed driver. Correspondence: fault injection at every k, config failures, refusals, drop after construction and after use, ordered log compared with the model; oracles: ledger balanced, no release while live (status/queue state at each dealloc), error-not-panic.",
+        "timeout": {"quick": 900, "thorough": 3600},
+    },
 }
